@@ -1,5 +1,313 @@
 package main
 
+import (
+	"fmt"
+	"go/token"
+	"go/types"
+	"os"
+	"path/filepath"
+	"sort"
+	"strings"
+
+	"golang.org/x/tools/go/callgraph"
+	"golang.org/x/tools/go/callgraph/rta"
+	"golang.org/x/tools/go/packages"
+	"golang.org/x/tools/go/ssa"
+	"golang.org/x/tools/go/ssa/ssautil"
+)
+
+const kpfx = "sigs.k8s.io/kustomize/"
+
+func shortFn(f *ssa.Function) string {
+	s := f.String()
+	s = strings.ReplaceAll(s, kpfx, "")
+	return s
+}
+
+func inKustomize(f *ssa.Function) bool {
+	return f.Pkg != nil && strings.HasPrefix(f.Pkg.Pkg.Path(), kpfx)
+}
+
+// rootGlobal follows FieldAddr/IndexAddr/UnOp(load)/Lookup chains back to a package-level variable.
+func rootGlobal(v ssa.Value, depth int) *ssa.Global {
+	if depth > 8 {
+		return nil
+	}
+	switch x := v.(type) {
+	case *ssa.Global:
+		return x
+	case *ssa.FieldAddr:
+		return rootGlobal(x.X, depth+1)
+	case *ssa.IndexAddr:
+		return rootGlobal(x.X, depth+1)
+	case *ssa.UnOp:
+		if x.Op == token.MUL {
+			return rootGlobal(x.X, depth+1)
+		}
+	case *ssa.Field:
+		return rootGlobal(x.X, depth+1)
+	}
+	return nil
+}
+
+type fact struct {
+	A, B string
+	N    int
+}
+
 func factsImpl(repo, out, js string) {
-	fail("facts: not built yet")
+	cfg := &packages.Config{
+		Mode: packages.LoadAllSyntax,
+		Dir:  filepath.Join(repo, "api"),
+		Env:  append(os.Environ(), "GOFLAGS=-mod=mod", "GOPROXY=off", "GOSUMDB=off", "GOTOOLCHAIN=local", "GOWORK=off"),
+	}
+	initial, err := packages.Load(cfg, "./krusty")
+	if err != nil {
+		fail(err.Error())
+	}
+	if packages.PrintErrors(initial) > 0 {
+		fail("package errors")
+	}
+	prog, pkgs := ssautil.AllPackages(initial, ssa.InstantiateGenerics)
+	prog.Build()
+	var run *ssa.Function
+	for _, p := range pkgs {
+		if p == nil || p.Pkg.Path() != kpfx+"api/krusty" {
+			continue
+		}
+		kz := p.Type("Kustomizer")
+		if kz == nil {
+			fail("krusty.Kustomizer not found")
+		}
+		run = prog.LookupMethod(types.NewPointer(kz.Type()), p.Pkg, "Run")
+	}
+	if run == nil {
+		fail("(*Kustomizer).Run not found")
+	}
+	res := rta.Analyze([]*ssa.Function{run}, true)
+	var fns []*ssa.Function
+	for f := range res.Reachable {
+		if inKustomize(f) {
+			fns = append(fns, f)
+		}
+	}
+	sort.Slice(fns, func(i, j int) bool { return shortFn(fns[i]) < shortFn(fns[j]) })
+
+	var mapRanges, panics, fsReads, globalsW, access []fact
+	writers := map[string]map[string]bool{} // global -> writer functions (outside init)
+	// lock discipline: which functions call Lock/RLock on a sync mutex themselves
+	locksSelf := map[*ssa.Function]bool{}
+	for _, f := range fns {
+		for _, b := range f.Blocks {
+			for _, in := range b.Instrs {
+				if c, ok := in.(ssa.CallInstruction); ok {
+					if cal := c.Common().StaticCallee(); cal != nil {
+						n := cal.String()
+						if n == "(*sync.RWMutex).Lock" || n == "(*sync.RWMutex).RLock" || n == "(*sync.Mutex).Lock" || n == "(*sync.Once).Do" {
+							locksSelf[f] = true
+						}
+					}
+				}
+			}
+		}
+	}
+	// functions all of whose (reachable, kustomize) callers hold the lock, to a fixpoint
+	held := map[*ssa.Function]bool{}
+	for f := range locksSelf {
+		held[f] = true
+	}
+	for changed := true; changed; {
+		changed = false
+		for _, f := range fns {
+			if held[f] {
+				continue
+			}
+			node := res.CallGraph.Nodes[f]
+			if node == nil || len(node.In) == 0 {
+				continue
+			}
+			all := true
+			for _, e := range node.In {
+				if e.Caller.Func == nil || !held[e.Caller.Func] {
+					all = false
+					break
+				}
+			}
+			if all {
+				held[f] = true
+				changed = true
+			}
+		}
+	}
+	_ = callgraph.Edge{}
+	for _, f := range fns {
+		nm := shortFn(f)
+		nMap, nPanic, nAssert := 0, 0, 0
+		isInit := f.Name() == "init" || strings.HasPrefix(f.Name(), "init#")
+		acc := map[string]string{} // global -> "r" / "w"
+		for _, b := range f.Blocks {
+			for _, in := range b.Instrs {
+				switch x := in.(type) {
+				case *ssa.Range:
+					if _, ok := x.X.Type().Underlying().(*types.Map); ok {
+						nMap++
+					}
+				case *ssa.Panic:
+					nPanic++
+				case *ssa.TypeAssert:
+					if !x.CommaOk {
+						nAssert++
+					}
+				case *ssa.Store:
+					if g := rootGlobal(x.Addr, 0); g != nil && strings.HasPrefix(g.Pkg.Pkg.Path(), kpfx) {
+						acc[g.Pkg.Pkg.Path()[len(kpfx):]+"."+g.Name()] = "w"
+					}
+				case *ssa.MapUpdate:
+					if g := rootGlobal(x.Map, 0); g != nil && strings.HasPrefix(g.Pkg.Pkg.Path(), kpfx) {
+						acc[g.Pkg.Pkg.Path()[len(kpfx):]+"."+g.Name()] = "w"
+					}
+				case *ssa.UnOp:
+					if x.Op == token.MUL {
+						if g := rootGlobal(x.X, 0); g != nil && strings.HasPrefix(g.Pkg.Pkg.Path(), kpfx) {
+							k := g.Pkg.Pkg.Path()[len(kpfx):] + "." + g.Name()
+							if acc[k] == "" {
+								acc[k] = "r"
+							}
+						}
+					}
+				}
+				if c, ok := in.(ssa.CallInstruction); ok {
+					var callee string
+					if cal := c.Common().StaticCallee(); cal != nil {
+						callee = cal.String()
+					} else if c.Common().IsInvoke() {
+						callee = c.Common().Method.FullName()
+					}
+					switch {
+					case callee == "os.ReadFile" || callee == "os.Open" || callee == "io/ioutil.ReadFile" || callee == "os.OpenFile" ||
+						callee == "os.ReadDir" || callee == "path/filepath.Walk" || callee == "path/filepath.Glob":
+						fsReads = append(fsReads, fact{nm, callee, 1})
+					case strings.HasSuffix(callee, "filesys.FileSystem).ReadFile") || strings.HasSuffix(callee, "filesys.FileSystem).Open"):
+						fsReads = append(fsReads, fact{nm, "FileSystem." + callee[strings.LastIndex(callee, ".")+1:], 1})
+					case strings.HasPrefix(callee, "log.Fatal") || callee == "os.Exit" || strings.HasPrefix(callee, "(*log.Logger).Fatal"):
+						panics = append(panics, fact{nm, "exit:" + callee, 1})
+					}
+				}
+			}
+		}
+		if nMap > 0 {
+			mapRanges = append(mapRanges, fact{nm, "", nMap})
+		}
+		if nPanic > 0 {
+			panics = append(panics, fact{nm, "panic", nPanic})
+		}
+		if nAssert > 0 {
+			panics = append(panics, fact{nm, "assert", nAssert})
+		}
+		if !isInit {
+			for g, rw := range acc {
+				if rw == "w" {
+					if writers[g] == nil {
+						writers[g] = map[string]bool{}
+					}
+					writers[g][nm] = true
+				}
+			}
+		}
+	}
+	// mutable globals = written outside init; then every access with lock status
+	for g, ws := range writers {
+		var l []string
+		for w := range ws {
+			l = append(l, w)
+		}
+		sort.Strings(l)
+		globalsW = append(globalsW, fact{g, strings.Join(l, " "), len(l)})
+	}
+	sort.Slice(globalsW, func(i, j int) bool { return globalsW[i].A < globalsW[j].A })
+	for _, f := range fns {
+		nm := shortFn(f)
+		isInit := f.Name() == "init" || strings.HasPrefix(f.Name(), "init#")
+		if isInit {
+			continue
+		}
+		seen := map[string]bool{}
+		for _, b := range f.Blocks {
+			for _, in := range b.Instrs {
+				var g *ssa.Global
+				switch x := in.(type) {
+				case *ssa.Store:
+					g = rootGlobal(x.Addr, 0)
+				case *ssa.MapUpdate:
+					g = rootGlobal(x.Map, 0)
+				case *ssa.UnOp:
+					if x.Op == token.MUL {
+						g = rootGlobal(x.X, 0)
+					}
+				}
+				if g == nil || !strings.HasPrefix(g.Pkg.Pkg.Path(), kpfx) {
+					continue
+				}
+				k := g.Pkg.Pkg.Path()[len(kpfx):] + "." + g.Name()
+				if writers[k] == nil || seen[k] {
+					continue
+				}
+				seen[k] = true
+				st := "unlocked"
+				if locksSelf[f] {
+					st = "locks"
+				} else if held[f] {
+					st = "callers-lock"
+				} else if par := f.Parent(); par != nil && locksSelf[par] {
+					st = "callers-lock" // a closure of a function that takes the lock (e.g. the body of sync.Once.Do)
+				}
+				access = append(access, fact{k, nm, map[string]int{"locks": 2, "callers-lock": 1, "unlocked": 0}[st]})
+			}
+		}
+	}
+	sort.Slice(access, func(i, j int) bool {
+		if access[i].A != access[j].A {
+			return access[i].A < access[j].A
+		}
+		return access[i].B < access[j].B
+	})
+	sort.Slice(fsReads, func(i, j int) bool { return fsReads[i].A+fsReads[i].B < fsReads[j].A+fsReads[j].B })
+	sort.Slice(panics, func(i, j int) bool { return panics[i].A+panics[i].B < panics[j].A+panics[j].B })
+	// merge duplicates
+	merge := func(fs []fact) []fact {
+		var o []fact
+		for _, f := range fs {
+			if len(o) > 0 && o[len(o)-1].A == f.A && o[len(o)-1].B == f.B {
+				o[len(o)-1].N += f.N
+			} else {
+				o = append(o, f)
+			}
+		}
+		return o
+	}
+	fsReads, panics = merge(fsReads), merge(panics)
+
+	var b strings.Builder
+	b.WriteString("-- GENERATED by /verif/extract (vx facts): SSA + RTA call graph rooted at (*krusty.Kustomizer).Run — regenerated on every check.\n")
+	b.WriteString("namespace Kust.Gen\n\n")
+	b.WriteString(fmt.Sprintf("def reachableFunctions : Nat := %d\n\n", len(fns)))
+	emit := func(name, doc string, fs []fact) {
+		b.WriteString("/-- " + doc + " -/\n")
+		b.WriteString("def " + name + " : List (String × String × Nat) := [\n")
+		for i, f := range fs {
+			b.WriteString(fmt.Sprintf("  (%s, %s, %d)", lq(f.A), lq(f.B), f.N))
+			if i+1 < len(fs) {
+				b.WriteString(",")
+			}
+			b.WriteString("\n")
+		}
+		b.WriteString("]\n\n")
+	}
+	emit("mapRangeSites", "(function, \"\", number of `range` statements over a map) in the build closure", mapRanges)
+	emit("panicSites", "(function, panic|assert|exit:callee, count): explicit panics, unchecked type assertions, process exits", panics)
+	emit("fsReadSites", "(function, callee, count): direct file-system reads in the build closure", fsReads)
+	emit("mutableGlobals", "(package-level variable, functions that write it outside init, count)", globalsW)
+	emit("globalAccess", "(mutable global, accessing function, 2 = takes a lock itself / 1 = all callers hold one / 0 = unlocked)", access)
+	b.WriteString("end Kust.Gen\n")
+	writeIfChanged(filepath.Join(out, "CodeFacts.lean"), b.String())
 }
